@@ -34,9 +34,13 @@ package kgo
 //@   ensures [continue-seen-means-run-again] reached($Store0) ==> cont
 //@   ensures [keeps-going-when-told] again ==> cont
 
+// hardFinish forces the state to unstarted unconditionally (a conditional swap would leave a pending 'continue'
+// in place and every later signal would be swallowed).
 //@ func (l *workLoop) hardFinish()
 //@   prop C30
 //@   nopanic
+//@   site call Store#0 assert [forces-unstarted] arg1 == 0
+//@   ensures [always-stores] reached($Store0)
 
 // ---- C30 (b): the ring, as a monitor ----
 // State protected by ring.mu: the buffer, head, length and the dead flag. Invariant (holds whenever mu is free,
